@@ -77,6 +77,9 @@ type WorkerGroup[T any] struct {
 	chStopInputs     chan struct{}
 	chStopProcessing chan struct{}
 	queueClosed      atomic.Bool
+	// stopMu orders Stop against the hand-off in Do: once Stop has marked the
+	// queue closed no further item can enter the input channel
+	stopMu sync.RWMutex
 
 	// service state management
 	svcChStop services.StopChan
@@ -109,6 +112,9 @@ func (wg *WorkerGroup[T]) Do(ctx context.Context, w WorkItem[T], group int) erro
 	if ctx.Err() != nil {
 		return fmt.Errorf("%w; work not added to queue", ErrContextCancelled)
 	}
+
+	wg.stopMu.RLock()
+	defer wg.stopMu.RUnlock()
 
 	if wg.queueClosed.Load() {
 		return fmt.Errorf("%w; work not added to queue", ErrProcessStopped)
@@ -188,8 +194,12 @@ func (wg *WorkerGroup[T]) RemoveGroup(group int) {
 
 func (wg *WorkerGroup[T]) Stop() {
 	wg.once.Do(func() {
+		// release every Do that is blocked on the input channel, wait for the
+		// ones that are handing an item over, then refuse all later calls
 		close(wg.svcChStop)
+		wg.stopMu.Lock()
 		wg.queueClosed.Store(true)
+		wg.stopMu.Unlock()
 		wg.chStopInputs <- struct{}{}
 	})
 }
@@ -226,6 +236,18 @@ func (wg *WorkerGroup[T]) runQueuing() {
 			default:
 			}
 		case <-wg.chStopInputs:
+			// an item accepted by Do just before the stop may still sit in the
+			// input channel; queue it so that its result is delivered and the
+			// caller waiting for it returns
+			for {
+				select {
+				case item := <-wg.input:
+					wg.queue.Add(item)
+					continue
+				default:
+				}
+				break
+			}
 			wg.chStopProcessing <- struct{}{}
 			return
 		}
